@@ -2149,3 +2149,282 @@ theorem Def.beqList_refl : ∀ ds : List Def, Def.beqList ds ds = true
 end
 
 end Ruschm
+
+namespace Ruschm.Ref
+open Prim Eval
+
+/-! ## Conversely: a value of the reference is the value of the model -/
+
+/-- the model's body outcome `rt` (in store `σ₁`) leads to the reference value `v` and store `τ` -/
+def TailConv (m : Nat) (rt : TailRes) (σ₁ : Store) (v : Value) (τ : Store) : Prop :=
+  match rt with
+  | .value v' => v' = v ∧ σ₁.erase = τ
+  | .tailCall f targs tenv => eval m σ₁.erase tenv (.call f targs none) = (.ok v, τ)
+
+theorem TailConv.mono {m m' rt σ₁ v τ} (h : TailConv m rt σ₁ v τ) (hm : m ≤ m') : TailConv m' rt σ₁ v τ := by
+  cases rt with
+  | value v' => exact h
+  | tailCall f targs tenv => exact eval_mono_le (show eval m _ _ _ = _ from h) (by simp) hm
+
+structure Conv (m : Nat) : Prop where
+  eval : ∀ {σ ρ e v τ}, eval m σ.erase ρ e = (.ok v, τ) → ∃ σ', Evals σ ρ e (.ok v) σ' ∧ σ'.erase = τ
+  list : ∀ {σ ρ es vs τ}, evalList m σ.erase ρ es = (.ok vs, τ) → ∃ σ', EvalsArgs σ ρ es (.ok vs) σ' ∧ σ'.erase = τ
+  apply : ∀ {σ p as v τ}, apply m σ.erase p as = (.ok v, τ) → ∀ env, ∃ σ', Applies σ p as env (.ok v) σ' ∧ σ'.erase = τ
+  defs : ∀ {σ ρ ds τ}, evalDefs m σ.erase ρ ds = (.ok (), τ) → ∃ σ', EvalsDefs σ ρ ds (.ok ()) σ' ∧ σ'.erase = τ
+  seq : ∀ {σ ρ es v τ}, evalSeq m σ.erase ρ es = (.ok v, τ) →
+    ∃ rt σ₁, EvalsBody σ ρ es (.ok rt) σ₁ ∧ TailConv m rt σ₁ v τ
+  tail : ∀ {σ ρ e v τ}, Ref.eval m σ.erase ρ e = (.ok v, τ) →
+    ∃ rt σ₁, EvalsTail σ ρ e (.ok rt) σ₁ ∧ TailConv m rt σ₁ v τ
+
+section
+variable {m : Nat} (ih : Conv m)
+include ih
+
+theorem conv_eval {σ ρ e v τ} (h : Ref.eval (m+1) σ.erase ρ e = (.ok v, τ)) :
+    ∃ σ', Evals σ ρ e (.ok v) σ' ∧ σ'.erase = τ := by
+  cases e with
+  | prim p l =>
+    rw [Ref.eval] at h
+    cases hp : evalPrim p <;> simp only [hp] at h <;> cases h
+    exact ⟨σ, .prim hp, rfl⟩
+  | datum d l =>
+    rw [Ref.eval, readLiteral_erase] at h
+    cases hl : readLiteral σ d with
+    | mk r σ' =>
+      rw [hl] at h; cases h
+      exact ⟨σ', .datum hl (by simp), rfl⟩
+  | quote d l =>
+    rw [Ref.eval, readLiteral_erase] at h
+    cases hl : readLiteral σ d with
+    | mk r σ' =>
+      rw [hl] at h; cases h
+      exact ⟨σ', .quote hl (by simp), rfl⟩
+  | lambda lam l =>
+    rw [Ref.eval] at h; cases h
+    exact ⟨σ, .lambda, rfl⟩
+  | sym s l =>
+    rw [Ref.eval, Store.erase_lookup] at h
+    cases hl : σ.lookup ρ s <;> simp only [hl] at h <;> cases h
+    exact ⟨σ, .sym hl, rfl⟩
+  | assign name ve l =>
+    rw [Ref.eval] at h
+    split at h
+    · cases h
+    next x τ₁ heq =>
+      obtain ⟨σ₁, h₁, rfl⟩ := ih.eval heq
+      rw [Store.erase_set] at h
+      cases hs : σ₁.set ρ name x with
+      | mk b σ₂ =>
+        rw [hs] at h
+        cases b <;> simp only at h <;> cases h
+        exact ⟨σ₂, .assign h₁ hs, rfl⟩
+  | cond t c a l =>
+    rw [Ref.eval] at h
+    split at h
+    · cases h
+    next tv τ₁ heq =>
+      obtain ⟨σ₁, h₁, rfl⟩ := ih.eval heq
+      split at h
+      next htv =>
+        obtain ⟨σ₂, h₂, rfl⟩ := ih.eval h
+        exact ⟨σ₂, .cond_true h₁ htv h₂, rfl⟩
+      next htv =>
+        have htv : tv.truthy = false := by simpa using htv
+        split at h
+        next alt =>
+          obtain ⟨σ₂, h₂, rfl⟩ := ih.eval h
+          exact ⟨σ₂, .cond_false h₁ htv h₂, rfl⟩
+        next =>
+          cases h
+          exact ⟨σ₁, .cond_void h₁ htv, rfl⟩
+  | call f args l =>
+    rw [Ref.eval] at h
+    split at h
+    · cases h
+    next fv τ₁ heq =>
+      obtain ⟨σ₁, h₁, rfl⟩ := ih.eval heq
+      split at h
+      next ra τ₂ hargs =>
+        split at h
+        · split at h <;> cases h
+        next ar hpa =>
+          split at h
+          · cases h
+          next vs =>
+            obtain ⟨σ₂, h₂, rfl⟩ := ih.list hargs
+            obtain ⟨σ₃, h₃, rfl⟩ := ih.apply (σ := enter σ₂) (by simpa using h) ρ
+            exact ⟨leave σ₃, .call h₁ h₂ (by simp [hpa]) (.of_loop h₃), by simp⟩
+
+theorem conv_list {σ ρ es vs τ} (h : evalList (m+1) σ.erase ρ es = (.ok vs, τ)) :
+    ∃ σ', EvalsArgs σ ρ es (.ok vs) σ' ∧ σ'.erase = τ := by
+  cases es with
+  | nil => rw [evalList] at h; cases h; exact ⟨σ, .nil, rfl⟩
+  | cons a as =>
+    rw [evalList] at h
+    split at h
+    · cases h
+    next x τ₁ heq =>
+      obtain ⟨σ₁, h₁, rfl⟩ := ih.eval heq
+      split at h
+      · cases h
+      next xs τ₂ heq2 =>
+        cases h
+        obtain ⟨σ₂, h₂, rfl⟩ := ih.list heq2
+        exact ⟨σ₂, .cons h₁ h₂, rfl⟩
+
+theorem conv_defs {σ ρ ds τ} (h : evalDefs (m+1) σ.erase ρ ds = (.ok (), τ)) :
+    ∃ σ', EvalsDefs σ ρ ds (.ok ()) σ' ∧ σ'.erase = τ := by
+  cases ds with
+  | nil => rw [evalDefs] at h; cases h; exact ⟨σ, .nil, rfl⟩
+  | cons d ds =>
+    obtain ⟨x, e, l⟩ := d
+    rw [evalDefs] at h
+    split at h
+    · cases h
+    next xv τ₁ heq =>
+      obtain ⟨σ₁, h₁, rfl⟩ := ih.eval heq
+      rw [← Store.erase_define] at h
+      obtain ⟨σ₂, h₂, rfl⟩ := ih.defs h
+      exact ⟨σ₂, .cons h₁ h₂, rfl⟩
+
+theorem conv_tail {σ ρ e v τ} (h : Ref.eval (m+1) σ.erase ρ e = (.ok v, τ)) :
+    ∃ rt σ₁, EvalsTail σ ρ e (.ok rt) σ₁ ∧ TailConv (m+1) rt σ₁ v τ := by
+  by_cases hcall : ∃ f as l, e = .call f as l
+  · obtain ⟨f, as, l, rfl⟩ := hcall
+    exact ⟨_, σ, .call, (eval_call_loc _ _ _ f as none l).trans h⟩
+  by_cases hcond : ∃ t c a l, e = .cond t c a l
+  · obtain ⟨t, c, a, l, rfl⟩ := hcond
+    rw [Ref.eval] at h
+    split at h
+    · cases h
+    next tv τ₁ heq =>
+      obtain ⟨σ₁, h₁, rfl⟩ := ih.eval heq
+      split at h
+      next htv =>
+        obtain ⟨rt, σ₂, h₂, hc⟩ := ih.tail h
+        exact ⟨rt, σ₂, .cond_true h₁ htv h₂, hc.mono (Nat.le_succ m)⟩
+      next htv =>
+        have htv : tv.truthy = false := by simpa using htv
+        split at h
+        next alt =>
+          obtain ⟨rt, σ₂, h₂, hc⟩ := ih.tail h
+          exact ⟨rt, σ₂, .cond_false h₁ htv h₂, hc.mono (Nat.le_succ m)⟩
+        next =>
+          cases h
+          exact ⟨.value .void, σ₁, .cond_void h₁ htv, rfl, rfl⟩
+  · obtain ⟨σ', h₁, rfl⟩ := conv_eval ih h
+    refine ⟨.value v, σ', .other ?_ ?_ h₁, rfl, rfl⟩
+    · intro f as l he; exact hcall ⟨f, as, l, he⟩
+    · intro t c a l he; exact hcond ⟨t, c, a, l, he⟩
+
+theorem conv_seq {σ ρ es v τ} (h : evalSeq (m+1) σ.erase ρ es = (.ok v, τ)) :
+    ∃ rt σ₁, EvalsBody σ ρ es (.ok rt) σ₁ ∧ TailConv (m+1) rt σ₁ v τ := by
+  match es with
+  | [] => rw [evalSeq] at h; cases h
+  | [last] =>
+    rw [evalSeq] at h
+    obtain ⟨rt, σ₁, h₁, hc⟩ := ih.tail h
+    exact ⟨rt, σ₁, .last h₁, hc.mono (Nat.le_succ m)⟩
+  | e :: e2 :: es =>
+    rw [evalSeq] at h
+    · split at h
+      · cases h
+      next x τ₁ heq =>
+        obtain ⟨σ₁, h₁, rfl⟩ := ih.eval heq
+        obtain ⟨rt, σ₂, h₂, hc⟩ := ih.seq h
+        exact ⟨rt, σ₂, .cons h₁ h₂, hc.mono (Nat.le_succ m)⟩
+    · simp
+
+theorem conv_apply {σ p as v τ} (h : Ref.apply (m+1) σ.erase p as = (.ok v, τ)) (env : Nat) :
+    ∃ σ', Applies σ p as env (.ok v) σ' ∧ σ'.erase = τ := by
+  unfold Ref.apply at h
+  split at h
+  · cases h
+  next fixed variadic hpa =>
+    split at h
+    · cases h
+    next har =>
+      have har' : arityOk fixed variadic as.length = true := by simpa using har
+      split at h
+      · -- apply
+        split at h
+        · cases h
+        next f args' hsp =>
+          obtain ⟨σ', h₁, rfl⟩ := ih.apply h env
+          have hlen : 1 ≤ as.length := by
+            simp only [procArity, Builtin.arity, Option.some.injEq, Prod.mk.injEq] at hpa
+            obtain ⟨rfl, rfl⟩ := hpa
+            exact (arityOk_variadic _ _).mp har'
+          exact ⟨σ', .apply hlen hsp h₁, rfl⟩
+      next b hb =>
+        rw [applyPure_erase] at h
+        cases hp : applyPure σ b as with
+        | mk r σ' =>
+          rw [hp] at h; cases h
+          simp only [procArity, Option.some.injEq] at hpa
+          refine ⟨σ', .builtin (fun hb' => hb (hb' ▸ rfl)) ?_ hp (by simp), rfl⟩
+          rw [hpa]; exact har'
+      next lam cenv =>
+        have ha : arityOk lam.formals.fixed.length lam.formals.rest.isSome as.length = true := by
+          simp only [procArity, Option.some.injEq, Prod.mk.injEq] at hpa
+          obtain ⟨rfl, rfl⟩ := hpa
+          exact har'
+        have e1 : (σ.erase.newFrame (some cenv)).2 = (σ.newFrame (some cenv)).2.erase := rfl
+        have e2 : (σ.erase.newFrame (some cenv)).1 = (σ.newFrame (some cenv)).1 := rfl
+        simp only [e1, e2, bindFixed_erase] at h
+        cases hb : bindFixed (σ.newFrame (some cenv)).2 (σ.newFrame (some cenv)).1 lam.formals.fixed as with
+        | mk rb σ₁ =>
+          rw [hb] at h
+          cases rb with
+          | error e => cases h
+          | ok restArgs =>
+            simp only at h
+            rw [← bindRest_erase] at h
+            split at h
+            · cases h
+            next τ₂ hd =>
+              obtain ⟨σ₂, h₂, rfl⟩ := ih.defs hd
+              obtain ⟨rt, σ₃, h₃, hc⟩ := ih.seq h
+              have hs := AppliesScheme.intro_ok hb h₂ h₃
+              cases rt with
+              | value v' =>
+                obtain ⟨rfl, rfl⟩ := hc
+                exact ⟨σ₃, .closure_value ha hs, rfl⟩
+              | tailCall f targs tenv =>
+                have hc : Ref.eval m σ₃.erase tenv (.call f targs none) = (.ok v, τ) := hc
+                cases m with
+                | zero => rw [Ref.eval] at hc; cases hc
+                | succ m₀ =>
+                  rw [Ref.eval] at hc
+                  split at hc
+                  · cases hc
+                  next fv τ₁ hf =>
+                    obtain ⟨σ₄, h₄, rfl⟩ := ih.eval (eval_mono_le hf (by simp) (Nat.le_succ m₀))
+                    split at hc
+                    next ra τ₂ hargs =>
+                      split at hc
+                      · split at hc <;> cases hc
+                      next ar hpf =>
+                        split at hc
+                        · cases hc
+                        next vs =>
+                          obtain ⟨σ₅, h₅, rfl⟩ := ih.list (evalList_mono_le hargs (by simp) (Nat.le_succ m₀))
+                          obtain ⟨σ₆, h₆, rfl⟩ := ih.apply (apply_mono_le hc (by simp) (Nat.le_succ m₀)) env
+                          exact ⟨σ₆, .closure_tail ha hs h₄ h₅ (by simp [hpf]) h₆, rfl⟩
+      · cases h
+end
+
+theorem conv_all : ∀ m, Conv m
+  | 0 => by
+    constructor
+    · intro σ ρ e v τ h; rw [Ref.eval] at h; cases h
+    · intro σ ρ es vs τ h; rw [evalList] at h; cases h
+    · intro σ p as v τ h; rw [Ref.apply] at h; cases h
+    · intro σ ρ ds τ h; rw [evalDefs] at h; cases h
+    · intro σ ρ es v τ h; rw [evalSeq] at h; cases h
+    · intro σ ρ e v τ h; rw [Ref.eval] at h; cases h
+  | m+1 =>
+    have ih := conv_all m
+    ⟨conv_eval ih, conv_list ih, conv_apply ih, conv_defs ih, conv_seq ih, conv_tail ih⟩
+
+end Ruschm.Ref
